@@ -69,8 +69,9 @@ class Setup(object):
             self.cids["missing-" + suffix] = os.path.join(self.dir, "no_such_cid." + suffix)
         self.files = {}
         ext = {"delimited": "csv", "fixed": "txt", "ods": "ods", "excel": "xlsx"}[kind]
-        for name, table in FILES.items():
-            path = os.path.join(self.dir, "%s.%s" % (name, ext))
+        for number, (name, table) in enumerate(FILES.items()):
+            # (file names are free: every second one carries characters that mean something to shells and glob patterns)
+            path = os.path.join(self.dir, ("%s [%d].%s" if number % 2 else "%s.%s") % ((name, number, ext) if number % 2 else (name, ext)))
             if kind == "delimited":
                 with open(path, "w", encoding="utf-8", newline="") as f:
                     f.write(storage.delimited_text(table))
@@ -82,7 +83,7 @@ class Setup(object):
             else:
                 storage.write_xlsx(path, [table])
             self.files[name] = path
-        self.files["missing"] = os.path.join(self.dir, "no_such_file." + ext)
+        self.files["missing"] = os.path.join(self.dir, "no_such_file[1]." + ext)
         self.files["directory"] = os.path.join(self.dir, "a_directory." + ext)
         os.makedirs(self.files["directory"], exist_ok=True)
         self._verdicts = {}
